@@ -228,10 +228,9 @@ theorem sendQueued_spec (g0 : G8) (s : Sess) :
   split
   · rename_i h
     refine ⟨⟨rfl, rfl, rfl, rfl, rfl⟩, ?_⟩
-    simp only [h, if_true, true_and]
+    simp only [h, true_and]
     simp [g8Of, wr, List.foldl_append, List.foldl_map]
-  · rename_i h
-    exact ⟨Fr.refl s, by simp [h]⟩
+  · exact ⟨Fr.refl s, by simp⟩
 
 /-- outcome of a send: refused by the application (nothing but silent observations), or … -/
 inductive SendOut (g0 : G8) (s r : Sess) (m : OutMsg) (kept : List OutMsg) (writes : Bool) : Prop
